@@ -75,6 +75,14 @@ pub fn fake_oid(kind: u8, n: u32) -> Vec<u8> {
 
 impl History {
     pub fn generate(rng: &mut Rng, awkward: bool, max_commits: usize) -> History {
+        Self::generate_cfg(rng, awkward, max_commits, false)
+    }
+
+    /// `real_repo`: the history will be imported into a real repository and exported again by git,
+    /// so it stays inside what `git fast-export` represents losslessly and what a work tree can hold
+    /// (no `encoding` header, symlinks with a plausible target, no `refs/remotes/origin/*` which the
+    /// tool deliberately migrates to local branches)
+    pub fn generate_cfg(rng: &mut Rng, awkward: bool, max_commits: usize, real_repo: bool) -> History {
         let mut h = History { awkward_paths: awkward, ..Default::default() };
         let mut next_mark: u32 = 1;
         let ncommits = 1 + rng.below(max_commits);
@@ -95,7 +103,7 @@ impl History {
                     let extra = 1 + rng.below(2);
                     for _ in 0..extra {
                         let p = rng.below(ci);
-                        if rng.chance(9, 10) && parents.contains(&p) { continue; }
+                        if (real_repo || rng.chance(9, 10)) && parents.contains(&p) { continue; }
                         parents.push(p);
                     }
                 }
@@ -132,6 +140,11 @@ impl History {
                         h.blobs.len() - 1
                     };
                     let mode = *rng.pick(MODES);
+                    let bi = if mode == "120000" && real_repo {
+                        h.blobs.push(Blob { mark: next_mark, content: format!("target{}", next_mark).into_bytes() });
+                        next_mark += 1;
+                        h.blobs.len() - 1
+                    } else { bi };
                     tree.insert(p.clone(), (mode, bi));
                     changes.push(Change::M { mode, blob: bi, path: p });
                 }
@@ -147,14 +160,15 @@ impl History {
                 v
             };
             let mut extra_headers = Vec::new();
-            if rng.chance(1, 15) { extra_headers.push(b"encoding ISO-8859-1\n".to_vec()); }
+            if !real_repo && rng.chance(1, 15) { extra_headers.push(b"encoding ISO-8859-1\n".to_vec()); }
             h.commits.push(Commit { mark: next_mark, refname, parents, author: ident(rng), committer: ident(rng), msg: rng.pick(MSGS).to_vec(), changes, tree, extra_headers });
             next_mark += 1;
         }
         // refs via reset
         let reset_names: [&[u8]; 8] = [b"refs/heads/other", b"refs/tags/lw", b"refs/tags/v1", b"refs/zzz/old", b"refs/remotes/origin/main", b"refs/tags/rel-2", b"refs/heads/main2", b"refs/tags/ann"];
         for _ in 0..rng.below(4) {
-            let r = rng.pick(&reset_names).to_vec();
+            let mut r = rng.pick(&reset_names).to_vec();
+            if real_repo && r == b"refs/remotes/origin/main" { r = b"refs/remotes/upstream/main".to_vec(); }
             if h.resets.iter().any(|(x, _)| *x == r) { continue; }
             h.resets.push((r, rng.below(ncommits)));
         }
@@ -342,14 +356,22 @@ impl OptSet {
         if rng.chance(1, 3) {
             for _ in 0..1 + rng.below(2) {
                 let old = prefix(rng);
-                let new = rng.pick(&[&b""[..], b"new/", b"e/", b"moved/sub/", b"sp ace/", b"z"]).to_vec();
+                let mut new = rng.pick(&[&b""[..], b"new/", b"e/", b"moved/sub/", b"sp ace/", b"z"]).to_vec();
+                // directory prefixes map to directory prefixes (no `a//b`, no file renamed to a directory name)
+                if new.ends_with(b"/") && !old.ends_with(b"/") { new.pop(); }
                 // renaming a whole file name to the empty path is a misconfiguration outside every claim
                 if new.is_empty() && !old.ends_with(b"/") { continue; }
                 if old != new { o.renames.push((old, new)); }
             }
         }
-        if rng.chance(1, 4) { o.tag_rename = Some((rng.pick(&[&b""[..], b"v", b"rel-", b"ann", b"l"]).to_vec(), rng.pick(&[&b"new-"[..], b"", b"v", b"x/"]).to_vec())); }
-        if rng.chance(1, 4) { o.branch_rename = Some((rng.pick(&[&b""[..], b"ma", b"main", b"side", b"rel/"]).to_vec(), rng.pick(&[&b"trunk"[..], b"", b"b/", b"main"]).to_vec())); }
+        if rng.chance(1, 4) {
+            let (a, b) = *rng.pick(&[(&b"v"[..], &b"rel-"[..]), (b"", b"new-"), (b"rel-", b"v"), (b"ann", b"note"), (b"l", b"L"), (b"v", b"x/v"), (b"on", b"")]);
+            o.tag_rename = Some((a.to_vec(), b.to_vec()));
+        }
+        if rng.chance(1, 4) {
+            let (a, b) = *rng.pick(&[(&b"ma"[..], &b"tru"[..]), (b"main", b"trunk"), (b"", b"b/"), (b"side", b"topic"), (b"rel/", b"release/"), (b"ma", b"main"), (b"side", b"main"), (b"m", b"")]);
+            o.branch_rename = Some((a.to_vec(), b.to_vec()));
+        }
         if rng.chance(1, 4) { o.max_blob = Some(*rng.pick(&[999usize, 1000, 1001, 1002, 5, 1, 100000])); }
         if rng.chance(1, 6) && !h.blobs.is_empty() {
             let mut f = b"# ids\n".to_vec();
